@@ -211,16 +211,16 @@ theorem exec_safe {a : Arch} {plen B : Nat} {w : Bits} {s : VmState} {op : Strin
   · exact exec_jz h hpc hB hstd (hjz rfl)
   · have hl : layout "i2r" = some [.reg, .inp] := by decide
     simp only [hl, dec_ri, operandsOk, operandOk, Bool.and_eq_true, Bool.and_true, decide_eq_true_eq] at hw
-    exact exec_i2r h hpc hB hw.2.2
+    exact exec_i2r h hpc hB hw.1.2.2
   · have hl : layout "i2rw" = some [.reg, .inp] := by decide
     simp only [hl, dec_ri, operandsOk, operandOk, Bool.and_eq_true, Bool.and_true, decide_eq_true_eq] at hw
-    exact exec_i2rw h hpc hB hw.2.2
+    exact exec_i2rw h hpc hB hw.1.2.2
   · have hl : layout "r2o" = some [.reg, .out] := by decide
     simp only [hl, dec_ro, operandsOk, operandOk, Bool.and_eq_true, Bool.and_true, decide_eq_true_eq] at hw
-    exact exec_r2o h hpc hB hw.2.2
+    exact exec_r2o h hpc hB hw.1.2.2
   · have hl : layout "r2owa" = some [.reg, .out] := by decide
     simp only [hl, dec_ro, operandsOk, operandOk, Bool.and_eq_true, Bool.and_true, decide_eq_true_eq] at hw
-    exact exec_r2owa h hpc hB hw.2.2
+    exact exec_r2owa h hpc hB hw.1.2.2
 
 /-- the jump target of a `jz` word that passed the control-flow check -/
 theorem jz_target_closed {a : Arch} {plen : Nat} {w : Bits} (hmode : a.mode = .ha)
